@@ -723,6 +723,11 @@ class C38(core.Check):
             S + [('on', 1), ('cont', 0), ('start', 0), ('err', 0), ('end', 0), ('cont', 0), ('occ', 1), ('run', 0),
                  ('stopstmt', 0), ('gs', 1), ('on', 1), ('cont', 0), ('occ', 1), ('stopstmt', 0), ('cont', 0),
                  ('ret', 0)],
+            # seed C38f: removing and redefining the trap routine (ON e GOSUB 0 / GOSUB n) changes neither
+            # STOP, nor the implicit stop while the routine runs, nor a remembered occurrence
+            S + [('on', 1), ('start', 0), ('stop', 1), ('gs0', 1), ('gs', 1), ('occ', 1), ('on', 1), ('ret', 0)],
+            S + [('on', 1), ('start', 0), ('stop', 1), ('occ', 1), ('gs0', 1), ('gs', 1), ('on', 1), ('ret', 0)],
+            S + [('on', 1), ('start', 0), ('occ', 1), ('gs0', 1), ('gs', 1), ('occ', 1), ('ret', 0), ('ret', 0)],
             # function, cursor and user-defined keys; the definition is forgotten by RUN
             [('gs', 5), ('gs', 11), ('gs', 15), ('gs', 16), ('on', 5), ('on', 11), ('on', 15), ('on', 16),
              ('start', 0), ('occ', 15), ('occ', 16), ('defkey', 15), ('occ', 15), ('occ', 16), ('ret', 0),
@@ -770,7 +775,7 @@ class C38(core.Check):
         rng.shuffle(acts) if rng.random() < 0.2 else None
         weights = [('occ', 30), ('occi', 3), ('on', 10), ('off', 6), ('stop', 8), ('ret', 14), ('gosub', 3),
                    ('retto', 2), ('err', 5), ('res', 5), ('resto', 1), ('end', 2), ('start', 4), ('run', 1),
-                   ('gs', 2), ('gs0', 1), ('onerr', 1), ('onerr0', 1), ('con', 2), ('clear', 1), ('new', 1),
+                   ('gs', 3), ('gs0', 2), ('regs', 5), ('onerr', 1), ('onerr0', 1), ('con', 2), ('clear', 1), ('new', 1),
                    ('renum', 3), ('chain', 1), ('stopstmt', 4), ('cont', 5)]
         if PLAY in events:
             weights.append(('playq', 12))
@@ -779,7 +784,14 @@ class C38(core.Check):
         kinds = [k for k, w in weights for _ in range(w)]
         for _ in range(n):
             k = rng.choice(kinds)
-            if k == 'playq':
+            if k == 'regs':
+                # remove the trap routine and define it again
+                e = rng.choice(events)
+                acts.append(['gs0', e])
+                if rng.random() < 0.3:
+                    acts.append(['occ', e])
+                acts.append(['gs', e])
+            elif k == 'playq':
                 acts.append([k, rng.choice([0, 0, 1, 2, 3, 5])])
             elif k == 'defkey':
                 acts.append([k, rng.choice([e for e in events if e in USER_KEYS])])
@@ -808,6 +820,8 @@ class C38(core.Check):
         for step in spine:
             for _ in range(rng.choice([0, 0, 0, 1, 2])):
                 acts.append(list(rng.choice(filler)))
+            if rng.random() < 0.2:
+                acts += [['gs0', e], ['gs', e]]
             acts.append(list(step))
         return acts
 
